@@ -183,51 +183,58 @@ def rule_header_lines(ctx):
     dw = prog.find("do_write_headers")
     if not ctx.require(dw, R, "entry", "header line writer (do_write_headers)"):
         return
-    # the line closure
-    clos = [c for c in prog.closures_of(dw)]
-    if not ctx.require(clos, R, "closure", "line closure of the header writer"):
-        return
-    c = clos[0]
-    I = _mk(prog)
-    ENV = ("OBJ", "env")
+    # one pass of the line loop, whatever is hoisted out of / captured by the line closure: the writer is run on a
+    # symbolic field iterator; the pieces emitted for the first field are compared with the line format
+    I = _mk(prog, loop_bound=1)
+    IDX, LAST = ("term", ("in", "index")), ("term", ("in", "last"))
 
     def init(st):
-        st.write_leaf(("OBJ", "name"), (), ("term", ("in", "name")))
-        st.write_leaf(("OBJ", "value"), (), ("term", ("in", "value")))
-        st.write_leaf(("OBJ", "index"), (), ("term", ("in", "index")))
-        st.write_leaf(("OBJ", "last"), (), ("term", ("in", "last")))
-        for i, r in enumerate(("name", "value", "index", "last")):
-            st.write_leaf(ENV, (("f", str(i)),), ("ref", ("OBJ", r), ()))
+        st.write_leaf(("OBJ", "index"), (), IDX)
         st.write_leaf(W, (), ("term", ("in", "w")))
-    outs = I.run(c, [ref(ENV), ref(W)], init)
+    try:
+        outs = I.run(dw, [{(): ("term", ("in", "iter"))}, ref(("OBJ", "index")), {(): LAST}, ref(W)], init)
+    except (PathLimit, Unsupported) as e:
+        ctx.incomplete(R, "interp", str(e))
+        return
     bad = []
     nfull = 0
     seen_guard = set()
     for o in outs:
-        if o.kind != "return" or not shape(o.ret).startswith("Ok"):
+        if o.kind not in ("return", "cut"):
             continue
+        flat = [p for e in o.state.events if e[0] == "emit" for p in e[1]]
+        if not flat:
+            continue
+        # pieces of the first field: up to the next field's name placeholder
+        first = [flat[0]]
+        for p in flat[1:]:
+            if p[0] == "arg":
+                break
+            first.append(p)
+        complete = len(first) >= 4 and (len(flat) > len(first) or o.state.read_leaf(("OBJ", "index"), ()) != IDX)
+        if not complete:
+            continue        # a line that did not fit (rolled back by try_write) or the path stops inside it
         nfull += 1
-        emits = [e[1] for e in o.state.events if e[0] == "emit"]
-        flat = [p for e in emits for p in e]
         g = None
         for k, v in o.state.facts.items():
-            if k[0] == "eq" and v[0] == "bool" and set((k[1], k[2])) == {("term", ("in", "index")), ("term", ("in", "last"))}:
+            if k[0] == "eq" and v[0] == "bool" and set((k[1], k[2])) == {IDX, LAST}:
                 g = v[1]
-            elif k[0] in ("eq", "lt") and v[0] == "bool" and "('in', 'index')" in repr(k) and "('in', 'last')" in repr(k):
+            elif k[0] in ("eq", "lt") and v[0] == "bool" and "('in', 'index')" in repr(k) and "('in', 'last')" in repr(k) and "'widen'" not in repr(k):
                 bad.append("the blank line is tied to %s instead of `index == last index`" % (k[0] + repr(k[1:])[:120]))
         seen_guard.add(g)
         want = [("arg", "display"), ("lit", b": "), ("raw",), ("lit", b"\r\n")] + ([("lit", b"\r\n")] if g else [])
-        got = [(p[0], p[1]) if p[0] in ("arg", "lit") else (p[0],) for p in flat]
+        got = [(p[0], p[1]) if p[0] in ("arg", "lit") else (p[0],) for p in first]
         if got != want:
-            bad.append("header line (last=%s) is %s" % (g, emit.render(flat)))
+            bad.append("header line (last=%s) is %s" % (g, emit.render(first)))
             continue
-        if "('in', 'name')" not in repr(flat[0][2]):
-            bad.append("the name item is not the field's name")
-        if not ("HeaderValue::as_bytes" in repr(flat[2][1]) and "('in', 'value')" in repr(flat[2][1])):
+        item = "'Iterator::next'"
+        if not (item in repr(first[0][2]) and "('f', '0'))" in repr(first[0][2])):
+            bad.append("the name item is not the field's name (%s)" % repr(first[0][2])[:100])
+        if not ("HeaderValue::as_bytes" in repr(first[2][1]) and item in repr(first[2][1]) and "('f', '1')" in repr(first[2][1])):
             bad.append("the value is not written as the field value's raw bytes")
     ctx.check(nfull >= 2 and seen_guard == {True, False} and not bad, R, "header-line",
               "header line = {name} \": \" <raw value bytes> CRLF, plus one more CRLF exactly when the running index equals the last index",
-              loc=body_loc(c), detail=sorted(set(bad))[:5])
+              loc=body_loc(dw), detail=sorted(set(bad))[:5])
     # last_index = effective header count - 1, index = resume index; increment only on success
     part = prog.find("try_write_prelude_part")
     if ctx.require(part, R, "step", "try_write_prelude_part"):
@@ -435,6 +442,8 @@ def rule_host_and_framing(ctx):
             host_sets = [e for e in sets if e[1][1] == "Host"]
             other = [e for e in sets if e[1][1] != "Host"]
             hg = [v for k, v in st.facts.items() if k[0] == "discr" and k[1][0] == "app" and k[1][1].endswith("headers_get") and contains_bytes(k[1], b"host")]
+            if not hg:
+                bad.append("whether the caller supplied a Host is not decided by a lookup in the *effective* headers (caller-added + original)")
             host_present = bool(hg) and hg[0][1] == frozenset(["Some"])
             uh = [v for k, v in st.facts.items() if k[0] == "discr" and k[1][0] == "app" and k[1][1] == "Uri::host"]
             uri_host = bool(uh) and uh[0][1] == frozenset(["Some"])
@@ -447,7 +456,12 @@ def rule_host_and_framing(ctx):
             mode = variant_at(st.read_tree(CALL, (("f", "state"), ("f", "writer"), ("f", "mode"))))
             clg = [v for k, v in st.facts.items() if k[0] == "discr" and k[1][0] == "app" and k[1][1].endswith("headers_get") and contains_bytes(k[1], b"content-length")]
             cl_present = bool(clg) and clg[0][1] == frozenset(["Some"])
-            ch = [v for k, v in st.facts.items() if v[0] == "bool" and k[0] == "call" and "Iterator::any" in k[1] and contains_bytes(k, b"transfer-encoding")]
+            if not clg:
+                bad.append("whether the caller supplied a Content-Length is not decided by a lookup in the effective headers")
+            ch = [v for k, v in st.facts.items() if v[0] == "bool" and k[0] == "call" and "Iterator::any" in k[1] and contains_bytes(k, b"transfer-encoding")
+                  and "headers_get_all" in repr(k)]
+            if not ch:
+                bad.append("whether the caller declared chunked is not decided by a scan of the effective transfer-encoding fields")
             chunked_hdr = bool(ch) and ch[0][1]
             want_framing = (not cl_present) and (not chunked_hdr) and mode in ("Sized", "Chunked")
             if want_framing != (len(other) == 1):
